@@ -29,14 +29,14 @@ func RunLayout(sizes []uint64, fill map[uint64]bool, t *Trace, seg int) int {
 		t.Emit(ev)
 		t.Emit(TakeSnap(s, "mkfs", true))
 		if fill[sz] {
-			fillDisk(s, t, int(sz), fb, fi)
+			s = fillDisk(s, t, int(sz), fb, fi)
 		}
 		s.Shutdown()
 	}
 	return seg
 }
 
-func fillDisk(s *Srv, t *Trace, sz, fb0, fi0 int) {
+func fillDisk(s *Srv, t *Trace, sz, fb0, fi0 int) *Srv {
 	s.Sequential = true
 	i := 0
 	do := func(c *Call) *Call {
@@ -77,6 +77,21 @@ func fillDisk(s *Srv, t *Trace, sz, fb0, fi0 int) {
 			}
 		}
 	}
+	// the large file has taken what it could (its last write may have been cut short in front of an index block): the
+	// structure must be right at this point too, and - for every other size - also for a server restarted here, whose
+	// allocator is what the disk says
+	s.WaitIdle()
+	t.Emit(TakeSnap(s, "fill", true)) // (not "run": the reference state of this trace does not follow the fill's calls)
+	if sz%2 == 1 {
+		s.Shutdown()
+		s2, err := Start(s.D, true)
+		if err != nil {
+			t.Emit(map[string]interface{}{"ev": "fatal", "what": err.Error()})
+			return s
+		}
+		s2.Sequential = true
+		s = s2
+	}
 	for n := 0; n < 64; n++ {
 		f := mk(fmt.Sprintf("s%d", n))
 		if f == "" {
@@ -113,4 +128,5 @@ func fillDisk(s *Srv, t *Trace, sz, fb0, fi0 int) {
 	}
 	t.Emit(map[string]interface{}{"ev": "emptied", "size": sz, "freeb0": fb0, "freei0": fi0, "freeb": fb2, "freei": fi2,
 		"rootblocks": rootblocks, "snap": sn})
+	return s
 }
